@@ -162,7 +162,7 @@ def save_protocol(exe, shim, root, seed, stats):
     s = sim.Sim(a, rng.fork()); s.populate(2)
     for step in range(3):
         lg = os.path.join(root, 'sys%d.log' % step)
-        cmd, args = rng.choice([('sync', []), ('sync', ['--test-force-autosave-at', '1']), ('scrub', ['-p', 'full', '-o', '0']), ('touch', []), ('sync', ['-F'])])
+        cmd, args = rng.choice([('sync', []), ('sync', ['--test-force-autosave-at', '1']), ('scrub', ['-p', 'full']), ('touch', []), ('sync', ['-F'])])
         r = a.cmd(cmd, *args, env={'LD_PRELOAD': shim, 'VERIF_LOG': lg}, uselog=False)
         if os.path.exists(lg):
             saves = parse_save_log(lg, a.contents)
